@@ -45,7 +45,7 @@ pub fn child(o: &Opts) -> i32 {
         }
         w.commit().expect("commit");
         let (seen, names, _) = kvt::disarm();
-        println!("NOCRASH seen={seen} points={}", crate::c04::rle(&names));
+        println!("NOCRASH seen={seen} seq={} points={}", names.join(","), crate::c04::rle(&names));
     });
     0
 }
@@ -85,7 +85,28 @@ async fn stored(file: &Path) -> J {
     for n in ["c4new", "c4e1", "c4e1x", "c4e2", "c4g1"] {
         n2u.push(format!("{n}:{}", if r.name_to_uuid(n).is_ok() { "y" } else { "n" }));
     }
-    json!({"ent": ent.join(" "), "n": all.len(), "tsmax": ts_json(tsmax), "idx": n2u.join(" ")})
+    // index state: which index / lookup tables exist and how much they hold (a dropped, empty or
+    // half-rebuilt table changes these; exact keys are left out because a few are random per run)
+    let (idxt, idxc) = match kvt::index_tables(&mut r) {
+        Ok(t) => {
+            let keys: usize = t.iter().map(|x| x.1).sum();
+            let ids: usize = t.iter().map(|x| x.2).sum();
+            let mut h: u64 = 0xcbf29ce484222325;
+            for (n, k, i) in &t {
+                for b in format!("{n}:{k}:{i};").bytes() {
+                    h = (h ^ b as u64).wrapping_mul(0x100000001b3);
+                }
+            }
+            (format!("tables={}", t.len()), format!("keys={keys} ids={ids} h={:08x}", (h >> 32) as u32 ^ h as u32))
+        }
+        Err(e) => (format!("err:{e:?}"), "err".to_string()),
+    };
+    // the backend's own check on the file as it is (before any start-up repair): verify_indexes etc.
+    let mut bev = kvt::be_verify(&mut r);
+    bev.sort();
+    bev.dedup();
+    let bev = if bev.is_empty() { "clean".to_string() } else { bev.join(",").chars().take(160).collect() };
+    json!({"ent": ent.join(" "), "n": all.len(), "tsmax": ts_json(tsmax), "idx": n2u.join(" "), "idxt": idxt, "idxc": idxc, "bev": bev})
 }
 
 /// Greatest change identifier stamped anywhere in the database by this server.
@@ -198,6 +219,10 @@ pub fn run(o: &Opts) -> i32 {
                     std::process::exit(2)
                 });
             let points = so.split("points=").nth(1).unwrap_or("").trim().to_string();
+            let seq: Vec<String> = so
+                .split_whitespace()
+                .find_map(|w| w.strip_prefix("seq=").map(|x| x.split(',').map(String::from).collect()))
+                .unwrap_or_default();
             let after = stored(&work).await;
             tr.emit(&json!({"a":"ref","kind":kind,"k":0,"n":n,"points":points,"before":before,"after":after}));
             for k in 1..=n {
@@ -205,8 +230,16 @@ pub fn run(o: &Opts) -> i32 {
                     if !s.contains(&(kind.clone(), k)) {
                         continue;
                     }
-                } else if stride > 0 && n > 150 && !(k % stride == 0 || k <= 8 || k + 4 > n) {
-                    continue;
+                } else if stride > 0 && n > 150 {
+                    // long transactions (reindex): the first 8 points, the last 4, every stride-th, and the
+                    // first and last occurrence of every point name (= every boundary between phases)
+                    let i = (k - 1) as usize;
+                    let edge = seq.get(i).map(|nm| {
+                        seq.iter().position(|x| x == nm) == Some(i) || seq.iter().rposition(|x| x == nm) == Some(i)
+                    }).unwrap_or(false);
+                    if !(k % stride == 0 || k <= 4 || k + 3 > n || edge) {
+                        continue;
+                    }
                 }
                 let tcase = std::time::Instant::now();
                 copy_db(tpl, &work);
